@@ -231,7 +231,7 @@ def declare(reg):
             "disk-seqs": f"implies(exists(lambda k: {D}), forall(lambda s, k: mem(self.mailbox.g_seqs, s, k) == mem(self.sequences, s, k), 'str', 'int'))",
         },
         modifies=["self.msg_keys", "self.uids", "self.num_msgs", "self.num_recent", "self._msg_key_to_idx", "self._uid_to_idx",
-                  "self.sequences", "self.optional_resync", "*.pending_notifications", "ClientProxy.g_out", "MH.g_keys", "MH.g_seqs"],
+                  "self.sequences", "self.optional_resync", "*.pending_notifications", "ClientProxy.g_out", "MH.g_keys", "MH.g_seqs", "self.g_db_exists", "self.g_db_uid_vv", "self.g_db_next_uid", "self.g_db_uids", "self.g_db_msg_keys", "self.g_db_subscribed", "self.g_db_num_msgs"],
         loops={
             0: {"invariant": {
                 "picked": "forall(lambda k: (k in to_delete) == (k in self.msg_keys and uid_at(self, k) in some(uid_msg_set) and pos(some(uid_msg_set), uid_at(self, k)) < _i))",
@@ -336,7 +336,7 @@ def declare(reg):
         },
         keeps_invariant=True,
         modifies=["self.last_resync", "self.mtime", "self.optional_resync", "self.msg_keys", "self.uids", "self.num_msgs", "self.num_recent",
-                  "self.sequences", "self.next_uid", "self._msg_key_to_idx", "self._uid_to_idx", "self.attributes", "MH.g_seqs", "*.pending_notifications", "ClientProxy.g_out"],
+                  "self.sequences", "self.next_uid", "self._msg_key_to_idx", "self._uid_to_idx", "self.attributes", "MH.g_seqs", "*.pending_notifications", "ClientProxy.g_out", "self.g_db_exists", "self.g_db_uid_vv", "self.g_db_next_uid", "self.g_db_uids", "self.g_db_msg_keys", "self.g_db_subscribed", "self.g_db_num_msgs"],
         loops={
             0: {"invariant": {
                 "flags": f"forall(lambda s, k: mem(self.sequences, s, k) == ite(k in new_msg_keys and pos(new_msg_keys, k) < _i, {NF}, mem(lpre(self.sequences), s, k)), 'str', 'int')",
@@ -469,6 +469,6 @@ def declare(reg):
             "untouched-when-false": "implies(not result, same(self.msg_keys, old(self.msg_keys)) and same(self.sequences, old(self.sequences)))",
         },
         keeps_invariant=True,
-        modifies=["self.msg_keys", "self.sequences", "self._msg_key_to_idx", "self._uid_to_idx", "self.mtime", "MH.g_keys", "MH.g_content", "MH.g_seqs"],
+        modifies=["self.msg_keys", "self.sequences", "self._msg_key_to_idx", "self._uid_to_idx", "self.mtime", "MH.g_keys", "MH.g_content", "MH.g_seqs", "self.g_db_exists", "self.g_db_uid_vv", "self.g_db_next_uid", "self.g_db_uids", "self.g_db_msg_keys", "self.g_db_subscribed", "self.g_db_num_msgs"],
         props=["C03"],
     )
